@@ -193,6 +193,44 @@ def make_harness(n_calls: int, first_kind: str, later_kinds: list[str] | None = 
     return harness
 
 
+def dialect_harness(e):
+    """The dialect of a call (here: the MessagePack front-end's own dialect, which passes bytes
+    through) reaches every nested object, also when the input carries no type tags."""
+    from models.zoo import VBin
+    from pyoak.serialize import SerializationOption
+
+    reset_all()
+    depth = 1 + e.choice(3, "depth")
+    tagged = e.flag("type_tags")
+    node = None
+    for k in range(depth):
+        node = VBin(blob=bytes([k, 255 - k]) * (k + 1), kid=node)
+    opts = None if tagged else {SerializationOption.SKIP_CLASS: True}
+    data = node.to_msgpck(serialization_options=opts)
+    blobs = []
+    n = node
+    while n is not None:
+        blobs.append(n.blob)
+        n = n.kid
+    node.detach()
+    scenario = {"depth": depth, "type_tags": tagged}
+    try:
+        back = VBin.from_msgpck(data)
+    except Exception as ex:  # noqa: BLE001
+        scenario.update(raised=f"{type(ex).__name__}: {ex}"[:200])
+        e.fail("dialect-does-not-reach-nested-object", scenario=scenario)
+    got = []
+    n = back
+    while n is not None:
+        got.append(n.blob)
+        n = n.kid
+    if got != blobs or not _slots_default():
+        scenario.update(got=[repr(b) for b in got], expected=[repr(b) for b in blobs])
+        e.fail("dialect-does-not-reach-nested-object", scenario=scenario)
+    e.distinct((depth, tagged))
+    return scenario
+
+
 def _decided(e, b) -> bool:
     if isinstance(b, bool):
         return True
@@ -204,6 +242,7 @@ def spec(tier: str, seed: int) -> Spec:
     later = ["as_dict"] if tier == "quick" else None
     var = "lazy: SKIP_CLASS, SORT_KEYS, optimized sources per call, fail@k per nested object; selectors: call kinds, dialect, corruption, tree"
     fams = [Family(f"{n}-calls-first-{k}-tree{t}", make_harness(n, k, later, [t]), variables=var) for k in SER + DESER for t in range(len(TREES))]
+    fams.append(Family("msgpack-dialect-on-nested-objects", dialect_harness, variables="selectors: nesting depth, tagged / untagged input"))
     return Spec(
         families=fams,
         functions=FUNCTIONS,
